@@ -121,11 +121,11 @@ def run(ctx):
     thorough = ctx.tier == "thorough"
     ctx.mc("MC_FaceTopology", "MC_FaceTopology_thorough.cfg" if thorough else "MC_FaceTopology_quick.cfg")
     rng = random.Random(ctx.seed * 67867967 + 4)
-    n = 8000 if thorough else 400
+    n = 8000 if thorough else 800
     cases = [gen_vec(rng, k + 1) for k in range(n)]
-    cases += [gen_plain(rng, n + 1 + k) for k in range(2000 if thorough else 150)]
+    cases += [gen_plain(rng, n + 1 + k) for k in range(2000 if thorough else 250)]
     n2 = len(cases)
-    cases += [gen_vec(rng, n2 + 1 + k, two=True) for k in range(2000 if thorough else 120)]
+    cases += [gen_vec(rng, n2 + 1 + k, two=True) for k in range(2000 if thorough else 250)]
     recs = ctx.pmap(execute, cases, chunksize=4)
     bad = ctx.validate("C03Trace", recs, jvms=16 if thorough else 8, chunk=250)
     # the scalar-form result of VecPlain records is itself bound to the geometric definition by C01's trace spec
